@@ -1,5 +1,6 @@
 import Percival.Proofs.Parsenum
 import Percival.Proofs.Humansize
+import Percival.Proofs.ParsenumFloat
 /-!
 # C16 — numeric text parsing is exact
 
@@ -95,6 +96,87 @@ theorem parsenumNoBounds_signed_aborts (t : IntTy) (bs : List UInt8) (base : Nat
   unfold parsenumNoBounds; rw [ex4_signed_abort _ _ _ _ ht]; rfl
 
 example : IntTy.signed .i16 = true := rfl
+
+/-! ## Floating-point targets (`float`, `double`)
+
+Full statement (NOT proved here): with `FAccepts trailing s q` the language of ISO C 2011 §7.22.1.3
+(white space, sign, decimal or hexadecimal floating numeral of exact value `q`, or `inf` / `infinity` /
+`nan` / `nan(…)`; longest such prefix when `trailing`), success ⇔ `FAccepts trailing s q` ∧ the
+correctly rounded value of `q` lies within the bounds, the result being that value (rounded once more to
+binary32 for `float`); EINVAL ⇔ not in the language; ERANGE otherwise.
+
+What is proved (`…_partial`): exactly that statement with "the libc model `Model.Strtod.strtod`
+converted a non-empty prefix (all of the string unless `trailing`) to the `double` `r.val`" in
+place of "`FAccepts` … correctly rounded value".  Missing: a relational grammar for floating numerals
+with the theorem that `Model.Strtod.strtod` consumes its longest member and returns its nearest
+`double`.  `strtod` is libc (trusted, modelled); model and real libc are compared on every run (L1),
+including rounding on inexact decimals and midpoints.  The part of the property that is
+`parsenum.h`'s own — classification of the target as floating point, the malformed / range / errno
+logic, NaN passing every bound, the narrowing assignment — is what these theorems cover. -/
+
+section floats
+open Percival.Model.Strtod Percival.Model.ParsenumFloat Percival.Proofs.ParsenumFloat
+
+theorem parsenum_float_ok_iff_partial (t : FTy) (bs : List UInt8) (min max : Fl) (trailing : Bool) (v : Fl) :
+    Model.ParsenumFloat.parsenum t bs min max 0 trailing = .ok v ↔
+      (strtod (cstr bs)).endOff ≠ 0 ∧
+      (trailing = true ∨ (strtod (cstr bs)).endOff = (cstr bs).length) ∧
+      (strtod (cstr bs)).errno = .ok ∧
+      Fl.lt (strtod (cstr bs)).val min = false ∧ Fl.lt max (strtod (cstr bs)).val = false ∧
+      v = fstore t (strtod (cstr bs)).val := by
+  unfold Model.ParsenumFloat.parsenum; rw [ex6_float]; exact expectedF_ok_iff _ _ _ _ _ _ _
+
+-- "0x1.8p1" into a double within [0, 2^10]: 3
+example : (Model.ParsenumFloat.parsenum .f64 [0x30, 0x78, 0x31, 0x2e, 0x38, 0x70, 0x31] (.fin false 0) (.fin false 1024) 0 false
+    matches .ok (.fin false 3)) = true := by decide +kernel
+
+theorem parsenum_float_einval_iff_partial (t : FTy) (bs : List UInt8) (min max : Fl) (trailing : Bool) :
+    Model.ParsenumFloat.parsenum t bs min max 0 trailing = .einval ↔
+      ((strtod (cstr bs)).endOff = 0 ∨
+       (trailing = false ∧ (strtod (cstr bs)).endOff ≠ (cstr bs).length)) := by
+  unfold Model.ParsenumFloat.parsenum; rw [ex6_float]; exact expectedF_einval_iff _ _ _ _ _ _ (strtod_errno _)
+
+-- "1e" : only "1" is a numeral
+example : (Model.ParsenumFloat.parsenum .f64 [0x31, 0x65] (.inf true) (.inf false) 0 false matches .einval) = true := by
+  decide +kernel
+
+theorem parsenum_float_erange_iff_partial (t : FTy) (bs : List UInt8) (min max : Fl) (trailing : Bool) :
+    Model.ParsenumFloat.parsenum t bs min max 0 trailing = .erange ↔
+      (strtod (cstr bs)).endOff ≠ 0 ∧
+      (trailing = true ∨ (strtod (cstr bs)).endOff = (cstr bs).length) ∧
+      (Fl.lt (strtod (cstr bs)).val min = true ∨ Fl.lt max (strtod (cstr bs)).val = true ∨
+        (strtod (cstr bs)).errno = .erange) := by
+  unfold Model.ParsenumFloat.parsenum; rw [ex6_float]; exact expectedF_erange_iff _ _ _ _ _ _
+
+-- "1e400" overflows (strtod's own ERANGE survives); "5" is above max = 4
+example : (Model.ParsenumFloat.parsenum .f64 [0x31, 0x65, 0x34, 0x30, 0x30] (.inf true) (.inf false) 0 false matches .erange) = true := by
+  decide +kernel
+example : (Model.ParsenumFloat.parsenum .f32 [0x35] (.fin false 0) (.fin false 4) 0 true matches .erange) = true := by
+  decide +kernel
+
+/-- NaN passes any bounds (as the repository's own test suite expects: `"nAn"` within `[0, 0]`). -/
+theorem parsenum_float_nan_passes_bounds (t : FTy) (bs : List UInt8) (min max : Fl) (trailing : Bool)
+    (hnan : (strtod (cstr bs)).val = .nan) (hend : (strtod (cstr bs)).endOff ≠ 0)
+    (htr : trailing = true ∨ (strtod (cstr bs)).endOff = (cstr bs).length)
+    (herr : (strtod (cstr bs)).errno = .ok) :
+    Model.ParsenumFloat.parsenum t bs min max 0 trailing = .ok (fstore t .nan) := by
+  rw [parsenum_float_ok_iff_partial]
+  refine ⟨hend, htr, herr, ?_, ?_, by rw [hnan]⟩ <;> rw [hnan]
+  · exact (nan_not_lt min).1
+  · exact (nan_not_lt max).2
+
+example : (Model.ParsenumFloat.parsenum .f64 [0x6e, 0x41, 0x6e] (.fin false 0) (.fin false 0) 0 false matches .ok .nan) = true := by
+  decide +kernel
+
+/-- documented misuse: a floating-point target with `base != 0` ends in `ASSERT_FAIL` -/
+theorem parsenum_float_base_nonzero_aborts (t : FTy) (bs : List UInt8) (min max : Fl) (base : Nat)
+    (trailing : Bool) (hb : base ≠ 0) :
+    (match Model.ParsenumFloat.parsenum t bs min max base trailing with | .abort => True | _ => False) := by
+  unfold Model.ParsenumFloat.parsenum; rw [ex6_float_abort _ _ _ _ _ _ hb]; trivial
+
+example : (16 : Nat) ≠ 0 := by decide
+
+end floats
 
 /-! ## Human-readable sizes -/
 
